@@ -249,7 +249,20 @@ class Inliner:
                     isinstance(s, InlineBlock) for s in body):
             out = pre + (body[:-1] if rets else body)
             val = rets[0].value if rets else None
-            if target is not None:
+            if target is not None and isinstance(
+                    target, (ast.Tuple, ast.List)) and isinstance(
+                        val, ast.Tuple) and len(val.elts) == len(
+                            target.elts) and all(
+                        isinstance(t_, ast.Name) for t_ in target.elts) and \
+                    not ({t_.id for t_ in target.elts} & {
+                        n_.id for n_ in ast.walk(val)
+                        if isinstance(n_, ast.Name)}):
+                # `a, b = helper()` with `return x, y`: element by element
+                # (no target occurs in the values, so the order is free)
+                for t_, v_ in zip(target.elts, val.elts):
+                    out.append(ast.copy_location(ast.Assign(
+                        [acopy(t_)], v_), at))
+            elif target is not None:
                 out.append(ast.copy_location(ast.Assign(
                     [acopy(target)],
                     val if val is not None else ast.Constant(None)), at))
